@@ -8,6 +8,7 @@
 import QExPy.Real
 import QExPy.Model.MCSettings
 import QExPy.Lemmas.ModeWalk
+import QExPy.Lemmas.MCWalk
 
 namespace QExPy
 open MCS ModeWalk
@@ -23,11 +24,11 @@ theorem C16_argmax (n : List Nat) (hn : n ≠ []) (c : ℝ) :
 
 theorem enoughAt_real (c : ℝ) (tot count : Nat) :
     enoughAt c tot count = true ↔ c * (tot : ℝ) ≤ (count : ℝ) := by
-  simp [enoughAt]
+  simp [enoughAt, modeNotEnough_eq]
 
 theorem enoughAt_real_false (c : ℝ) (tot count : Nat) :
     enoughAt c tot count = false ↔ (count : ℝ) < c * (tot : ℝ) := by
-  simp [enoughAt]
+  simp [enoughAt, modeNotEnough_eq]
 
 /-- **C16 (main, mode strategy).** For every count list and every confidence `c ∈ (0, 1]`, the
     number `k` of bin widths the walk reports is the LEAST `k` such that the bins within `k` of
@@ -86,7 +87,7 @@ theorem C16_mode_result (n : List Nat) (edges : List ℝ) (c : ℝ) :
     let e := fun i => edges.getD i 0
     (modeResult n edges c).1 = (e (modeWalk n c).1 + e ((modeWalk n c).1 + 1)) / 2 ∧
     (modeResult n edges c).2 = ((modeWalk n c).2 : ℝ) * ((e (edges.length - 1) - e 0) / (n.length : ℝ)) := by
-  simp [modeResult]
+  simp [modeResult, modeValue_eq, modeError_eq]
 
 theorem C16_error_nonneg (n : List Nat) (edges : List ℝ) (c : ℝ)
     (h : edges.getD 0 0 ≤ edges.getD (edges.length - 1) 0) :
@@ -353,8 +354,7 @@ theorem C16_custom (w : World ℝ) (s : St ℝ) (v e : ℝ) (he : 0 ≤ e) :
     ∀ c, (step w (step w s1 (.setConf c)).1 .read).2 = Out.pair v e := by
   obtain ⟨id, hid⟩ := Option.isSome_iff_exists.mp (ensure_sim_isSome s)
   have hlt : ¬ e < 0 := not_lt.mpr he
-  simp only [step, hlt, num_lt, num_ofNat, Nat.cast_zero, decide_false, Bool.false_eq_true,
-    if_false]
+  simp only [step, hlt, mcCustomBad_eq, decide_false, Bool.false_eq_true, if_false]
   generalize ensure s = t at hid
   obtain ⟨size, strategy, conf, range, sim, next, cMean, cMode, cCustom, glob, log⟩ := t
   simp only at hid
